@@ -18,6 +18,30 @@ CHECKS = {
  "C17": ("property-based testing (proptest): tables read from the emitted text vs reference LALR(1) tables (cell-by-cell under a BFS state bijection)",
          "exploration over generated accepted grammars; compares every ACTION/GOTO cell, start state, column order and pop counts",
          TRUST_REF + "; the emitted text layout is read by a line-oriented reader (harness/src/emitted.rs)", "DESIGN.md §4 C17", E1),
+ "C08": ("property-based testing (proptest): generated texts vs reference tokenizer written from the documented lexical rules (differential oracle, via the tokenize hook and via generate alone)",
+         "exploration over 8 text families (valid files, token edits, token soup, lexically bad atoms, malformed attributes, character soup, character mutations of generated and repository files) under random layouts; full token vectors and Lex error payloads are compared",
+         TRUST_REF + "; for malformed attributes every defensible 'first offending character' is accepted", "DESIGN.md §4 C08, Appendix A", E1),
+ "C09": ("property-based testing (proptest): generated token lists vs Earley recogniser over the published Kiki grammar (acceptance + viable-prefix error index), plus exhaustive token-prefix truncation of the seed files",
+         "exploration over valid files, 1..3 token edits, token soup and all prefixes of 25 seed files; generate's Parse(start,text,end) and kiki::data::cst::parse are both compared with the reference",
+         TRUST_REF, "DESIGN.md §4 C09, Appendix B", E1),
+ "C10": ("property-based testing (proptest): files with injected static violations vs reference validator (set of all violations present; completeness + truthfulness oracle)",
+         "exploration over 15 kinds of violation injection (0..4 per file) and 3-name-pool files; any reported error must truthfully describe a violation present, and a file with violations must be rejected with a validation error",
+         TRUST_REF + "; any of several simultaneous violations may be reported", "DESIGN.md §4 C10, Appendix C", E1),
+ "C16": ("property-based testing (proptest): metamorphic relation between two random layouts of the same token list",
+         "exploration over token lists of every outcome class (Ok, lex, parse, each validation error, table conflict) rendered under two independent layouts; outputs compared modulo the hash line, errors modulo the token-boundary position map",
+         "trusted base: the layout renderer (self-checked on every case by re-tokenising both renderings with the reference tokenizer)", "DESIGN.md §4 C16", E1),
+ "C12": ("property-based testing (proptest): generated attribute texts; byte-level oracle on the lines preceding each emitted type definition + unique-marker counting",
+         "exploration over generated balanced-bracket attribute texts (nesting to depth 6, multi-byte, quotes, CR, U+2028) on struct/enum/terminal declarations, 0..4 per declaration",
+         "trusted base: definition lines are located by the declared (unique) names; reference tokenizer/parser recover the written attributes from the source", "DESIGN.md §4 C12", E1),
+ "C13": ("property-based testing (proptest): generated payload type expressions; every use site in the emitted text re-tokenised and compared with the declaration (plus an enumeration nested to depth 256)",
+         "exploration over generated type expressions (paths of 1..5 segments, generics with 1..4 arguments, depth <= 6 random and <= 256 enumerated) at all four kinds of use site",
+         "trusted base: line-oriented reader of the emitted type definitions and helper signatures (harness/src/emitted.rs)", "DESIGN.md §4 C13", E1),
+ "C15": ("property-based testing (proptest): (a) round trip against an own SHA-256 implementation, (b) generated header texts vs a reference header scan",
+         "exploration over accepted sources (digest must be that of the exact bytes; re-spaced variants must not share it) and over header texts composed from adversarial line fragments",
+         "trusted base: own FIPS 180-4 SHA-256, self-tested on the standard vectors at start-up; '\\n' ends a line, CRLF tolerated", "DESIGN.md §4 C15", E1),
+ "C18": ("model-based property testing (proptest): operation histories interpreted against std BTreeSet",
+         "exploration over pairs of histories (0..40 ops) on three element types; invariants after every step and history-independence of ==, cmp, Hash",
+         "trusted base: std BTreeSet as the model of a sorted set", "DESIGN.md §4 C18", E1),
 }
 
 NOT_YET = {}
